@@ -59,6 +59,7 @@ pub enum K {
     StoreWeak,
     TryUnwrap,
     MakeMut,
+    SlotMakeMut,
     GetMut,
     IntoRaw,
     FromRaw,
@@ -71,7 +72,7 @@ pub enum K {
 pub const NK: usize = K::_N as usize;
 const ALLK: [K; NK] = [
     K::New, K::Clone, K::Drop, K::Store, K::Take, K::Adopt, K::Unadopt, K::SelfSame, K::UnSelfSame, K::Downgrade, K::Upgrade, K::WeakClone,
-    K::WeakDrop, K::StoreWeak, K::TryUnwrap, K::MakeMut, K::GetMut, K::IntoRaw, K::FromRaw, K::IncStrong, K::DecStrong, K::DropValue, K::Noise,
+    K::WeakDrop, K::StoreWeak, K::TryUnwrap, K::MakeMut, K::SlotMakeMut, K::GetMut, K::IntoRaw, K::FromRaw, K::IncStrong, K::DecStrong, K::DropValue, K::Noise,
 ];
 
 #[derive(Clone, Debug)]
@@ -404,6 +405,18 @@ pub fn next_op(rng: &mut Rng, kn: &Knobs, g: &mut GenState) -> Option<Op> {
                 (Some(w), Some((owner, _))) => Some(Op::StoreWeak { w, owner }),
                 _ => None,
             },
+            K::SlotMakeMut => {
+                let cands: Vec<(Id, Id)> = m(|m| {
+                    let mut c = vec![];
+                    for &(h, o) in hs.iter() {
+                        for &(sid, _) in &m.obj(o).slots {
+                            c.push((h, sid));
+                        }
+                    }
+                    c
+                });
+                rng.pick(&cands).map(|(owner, slot)| Op::SlotMakeMut { owner, slot, o2: g.o() })
+            }
             K::TryUnwrap | K::MakeMut | K::GetMut | K::IntoRaw => {
                 let cands: Vec<Id> = if kn.consuming_on_adopted && rng.chance(3, 4) {
                     m(|m| hs.iter().filter(|&&(_, o)| !m.row_empty(o)).map(|&(h, _)| h).collect())
